@@ -108,8 +108,10 @@ func (op *pipelineOp) exec(fm *Frame) Exception {
 		var fops []formOwnedPort
 		inputIsPipe := i > 0
 		outputIsPipe := i < nforms-1
+		var input *Port
 		if inputIsPipe {
-			newFm.ports[0] = nextIn
+			input = nextIn
+			newFm.ports[0] = input
 			growAccess(&fops, 0).File = true
 		}
 		if outputIsPipe {
@@ -139,7 +141,7 @@ func (op *pipelineOp) exec(fm *Frame) Exception {
 				*pexc = exc
 			}
 			if inputIsPipe {
-				input := newFm.ports[0]
+				// Not newFm.ports[0], which a redirection may have replaced.
 				*input.sendError = errs.ReaderGone{}
 				close(input.sendStop)
 				input.readerGone.Store(true)
